@@ -162,6 +162,27 @@ def marksUpTo (cfg : Cfg) (t : Test) (ph : Phase) : List (Phase × Nat) :=
 def failuresUpTo (cfg : Cfg) (plugins : List Plugin) (t : Test) (ph : Phase) : List FailRec :=
   preFailures cfg plugins t ++ (phasesUpTo cfg t ph).flatMap (fun q => phaseFailures cfg t (stmtsOf t q))
 
+/-! ## `-p`: what the parent records for a test that ran in a child -/
+
+/-- the one record the parent adds for a child that recorded any failure -/
+def sepRec (cfg : Cfg) (t : Test) : FailRec := mkRecAtTest cfg t separateProcessMsg
+
+/-- everything printed for one test, in order: the failing events (printed once, by the process that
+    ran the test) and — with `-p` — one "Failed in separate process" record if there was any -/
+def testRecords (cfg : Cfg) (plugins : List Plugin) (t : Test) : List FailRec :=
+  testFailures cfg plugins t ++
+    (if cfg.separate && !(testFailures cfg plugins t).isEmpty then [sepRec cfg t] else [])
+
+/-- what the run's `TestResult` counts as failures of the test: every failing event, or — with `-p`,
+    where the child's counters are lost — one per failed child -/
+def testFailCount (cfg : Cfg) (plugins : List Plugin) (t : Test) : Nat :=
+  if cfg.separate then (if (testFailures cfg plugins t).isEmpty then 0 else 1)
+  else (testFailures cfg plugins t).length
+
+/-- checks the run's `TestResult` counts for the test: with `-p` the checks are made (and counted)
+    in the child only and never reach the parent's summary -/
+def testChecksCounted (cfg : Cfg) (t : Test) : Nat := if cfg.separate then 0 else testChecks cfg t
+
 /-- tests selected by the filters, and those of them that run (not ignored, or `-ri`) -/
 def selected (cfg : Cfg) (tests : List Test) : List Test := tests.filter (shouldRun cfg)
 def running (cfg : Cfg) (tests : List Test) : List Test := (selected cfg tests).filter (willRun cfg)
@@ -170,12 +191,16 @@ def running (cfg : Cfg) (tests : List Test) : List Test := (selected cfg tests).
 def expectedFailures (cfg : Cfg) (plugins : List Plugin) (tests : List Test) : List FailRec :=
   (running cfg tests).flatMap (testFailures cfg plugins)
 
+/-- all printed records of a repetition, in order (with `-p`: including the parents' records) -/
+def expectedRecords (cfg : Cfg) (plugins : List Plugin) (tests : List Test) : List FailRec :=
+  (running cfg tests).flatMap (testRecords cfg plugins)
+
 /-- the true counts of a repetition -/
 def expectedCounts (cfg : Cfg) (plugins : List Plugin) (tests : List Test) : Result :=
   { testCount := tests.length,
     runCount := (running cfg tests).length,
-    checkCount := ((running cfg tests).map (testChecks cfg)).sum,
-    failureCount := (expectedFailures cfg plugins tests).length,
+    checkCount := ((running cfg tests).map (testChecksCounted cfg)).sum,
+    failureCount := ((running cfg tests).map (testFailCount cfg plugins)).sum,
     filteredOutCount := tests.length - (selected cfg tests).length,
     ignoredCount := (selected cfg tests).length - (running cfg tests).length }
 
@@ -188,6 +213,12 @@ instance (r : Result) : Decidable r.ok := by unfold Result.ok; exact inferInstan
 
 def Ev.failure? : Ev → Option FailRec
   | .failure r => some r
+  | _ => none
+
+/-- any printed failure record: of a failing event, or the parent's record of a failed child -/
+def Ev.record? : Ev → Option FailRec
+  | .failure r => some r
+  | .sepFailure r => some r
   | _ => none
 
 def Ev.mark? : Ev → Option (Phase × Nat)
@@ -216,6 +247,7 @@ def Ev.ended? : Ev → Option (Int × Option String × Bool)
   | _ => none
 
 def failuresOf (evs : List Ev) : List FailRec := evs.filterMap Ev.failure?
+def recordsOf (evs : List Ev) : List FailRec := evs.filterMap Ev.record?
 def marksIn (evs : List Ev) : List (Phase × Nat) := evs.filterMap Ev.mark?
 def entersOf (evs : List Ev) : List Phase := evs.filterMap Ev.enter?
 def summariesOf (evs : List Ev) : List (Result × Nat) := evs.filterMap Ev.summary?
@@ -333,6 +365,7 @@ def FailRec.clean (r : FailRec) : Prop :=
 def Ev.toks (color : Bool) : Ev → List String
   | .tok s => [s]
   | .failure r => failureToks r
+  | .sepFailure r => failureToks r
   | .summary r time => summaryToks color r time
   | _ => []
 
